@@ -12,6 +12,7 @@ pub mod c13;
 pub mod c14;
 pub mod c16;
 pub mod c17;
+pub mod c18;
 pub mod miri;
 
 use crate::report::{Report, Tier};
@@ -197,6 +198,14 @@ pub fn plan(id: &str) -> Option<Plan> {
             floor: 40,
             engines: vec![Engine { name: "sim", salt: 1, quick: 2000, thorough: 100_000, serial: false, run: Box::new(|s, t| c17::scenario(s, t, None)) }],
             extra: Some(|_t, _s| serde_json::json!({"grid_size": c17::GRID, "grid_note": "scenario seeds are mapped onto the 48-cell grid by seed mod 1000003 mod 48; buckets in engines.sim list the per-cell counts"})),
+        },
+        "C18" => Plan {
+            id: "C18",
+            rule: "scenario = health-check wrapper with its own background task on the paused clock: 1-5 resources, thresholds 1-4 (or the defaults), scripted result per (resource, check) over {healthy, degraded, unhealthy, unknown, slower than the timeout} in moody runs, 50-300 check intervals, strategies first-available / round-robin / prefer-healthy / two custom selectors; after every interval get_status of every resource is compared with a reference hysteresis machine and n get_usable + n get_healthy calls are judged for eligibility, None-iff-empty and round-robin evenness; non-trivial iff >=2 status flips and >=1 timed-out check; distinct = (published status sequence, config) signature",
+            assumptions: BASE_ASSUMPTIONS.to_vec(),
+            floor: 50,
+            engines: vec![Engine { name: "sim", salt: 1, quick: 600, thorough: 20_000, serial: false, run: Box::new(|s, t| c18::scenario(s, t)) }],
+            extra: None,
         },
         _ => return None,
     })
